@@ -45,8 +45,10 @@ def step (line : String) : String :=
   | ["mmet", "absolute", m, o, c] => match metric? m, rats? o, rats? c with
       | some m, some o, some c => showR (.ok (marginalMetricsAbsoluteBias (P m) o c [] [])) | _, _, _ => "bad-op"
   | ["days", m, ys, x] => match metric? m, ints? ys, rats? x with
-      | some m, some ys, some x =>
-          showRat (meanYearlyExceedances ys (m.instances x)) ++ ";" ++ showList toString (yearlyExceedances ys (m.instances x))
+      | some m, some ys, some x => showR (.ok (meanYearlyExceedances ys (m.instances x)))
+      | _, _, _ => "bad-op"
+  | ["yearly", m, ys, x] => match metric? m, ints? ys, rats? x with
+      | some m, some ys, some x => showList toString (yearlyExceedances ys (m.instances x))
       | _, _, _ => "bad-op"
   | ["legacydays", m, ys, x] => match metric? m, ints? ys, rats? x with
       | some m, some ys, some x => showList toString (legacyYearlyExceedances ys (m.instances x))
